@@ -775,12 +775,12 @@ func (v Value) toReflectValue(typ reflect.Type) (reflect.Value, error) {
 		switch value := v.value.(type) {
 		case float32:
 			_, frac := math.Modf(float64(value))
-			if frac > 0 {
+			if frac != 0 {
 				return reflect.Value{}, fmt.Errorf("RangeError: %v to reflect.Kind: %v", value, kind)
 			}
 		case float64:
 			_, frac := math.Modf(value)
-			if frac > 0 {
+			if frac != 0 {
 				return reflect.Value{}, fmt.Errorf("RangeError: %v to reflect.Kind: %v", value, kind)
 			}
 		}
